@@ -105,7 +105,9 @@ def errJ : Err → Json
   | .fuel => Json.arr #[Json.str "fuel"]
   | .noMacro n => Json.arr #[Json.str "noMacro", Json.str n]
   | .macroCycle ps n => Json.arr #[Json.str "macroCycle", Json.arr (ps.map Json.str).toArray, Json.str n]
+  | .macroNested n => Json.arr #[Json.str "macroNested", Json.str n]
   | .noFile n => Json.arr #[Json.str "noFile", Json.str n]
+  | .includeCycle n => Json.arr #[Json.str "includeCycle", Json.str n]
   | .versionConflict => Json.arr #[Json.str "versionConflict"]
   | .badVersion => Json.arr #[Json.str "badVersion"]
   | .noOption n => Json.arr #[Json.str "noOption", Json.str n]
